@@ -179,3 +179,42 @@ func init() {
 		},
 	})
 }
+
+func init() {
+	trSpecs = append(trSpecs, trSpec{
+		Name: "sim_main_exit", Props: []string{"C20"},
+		File: "cmd/simulator/main.go", Func: "main", After: "wg.Wait()",
+		Atoms:   []atom{{"progress.AllProgressComplete()", "all_complete", "bool"}},
+		Actions: map[string]int{"os.Exit(1)": 1},
+		Ignore:  []string{`^fmt\.Print`},
+	})
+}
+
+func init() {
+	trSpecs = append(trSpecs, []trSpec{
+		{
+			Name: "sim_check_progress", Props: []string{"C20"},
+			File: "tools/simulator/telemetry/progress.go", Func: "ProgressTelemetry.checkProgress",
+			Binders: map[string]map[string]string{"ticker := time.NewTicker(trackerProgressCheck)": {}},
+			Actions: map[string]int{
+				"for t.writer.IsRenderInProgress() { }": 1,
+				"t.success.Store(t.writer.Length() == t.writer.LengthDone() && t.failed.Load() == 0)": 2,
+				"close(t.chComplete)": 3,
+			},
+		},
+		{
+			Name: "sim_check_progress_body", Props: []string{"C20"},
+			File: "tools/simulator/telemetry/progress.go", Func: "ProgressTelemetry.checkProgress", Loop: 1,
+			Atoms: []atom{
+				{"<-ticker.C", "tick", "bool"}, {"t.writer.Length()", "n_trackers", "Z"}, {"t.writer.LengthActive()", "n_active", "Z"},
+			},
+			Actions: map[string]int{"t.writer.Stop()": 1, "time.Sleep(500 * time.Millisecond)": 2, "ticker.Stop()": 3},
+		},
+		{
+			Name: "sim_all_progress_complete", Props: []string{"C20"},
+			File: "tools/simulator/telemetry/progress.go", Func: "ProgressTelemetry.AllProgressComplete",
+			Actions: map[string]int{"<-t.chComplete": 1},
+			Rets:    map[string]int{"t.success.Load()": 1},
+		},
+	}...)
+}
